@@ -10,6 +10,7 @@ import hashlib
 import http.server
 import json
 import os
+import shutil
 import threading
 from fractions import Fraction
 
@@ -111,7 +112,7 @@ def make_source(R, rng, d, i, force_kind=None):
     return out, info, acc, kind
 
 
-def make_source_direct(R, rng, d, i):
+def make_source_direct(R, rng, d, i, force=None):
     """A source dataset written WITHOUT the package (raw chunks, flat layout, no gzip, info as JSON),
     so that it is complete whatever the package's writer does; with an object on a zero background."""
     out = os.path.join(d, "src")
@@ -119,9 +120,13 @@ def make_source_direct(R, rng, d, i):
     nch = rng.choice([1, 1, 2])
     scales = []
     size = [rng.randrange(4, 21) for _ in range(3)]
+    if force:
+        size = list(force["size"])
     levels = {}
     for k in range(rng.choice([1, 2])):
         cs = [rng.choice([2, 4, 8]) for _ in range(3)]
+        if force:
+            cs = list(force["chunk"])
         sz = [max(1, -(-x // 2 ** k)) for x in size]
         key = f"{2 ** k}mm"
         scales.append({"key": key, "size": sz, "chunk_sizes": [cs], "encoding": "raw",
@@ -194,6 +199,15 @@ def run(R):
     R.rule = RULE
     rng = R.rng
     api_sequence(R, rng)
+    # fixed geometries whose shards use non-contiguous minishard numbers (grid 3x4x2 with (m,s,p) = (2,2,0):
+    # shard 2 holds minishards {0, 2}; grid 3x3x2 with (3,1,0))
+    for w, (size, sharding) in enumerate([((6, 8, 4), (2, 2, 0)), ((6, 6, 4), (3, 1, 0))]):
+        d = os.path.join(R.tmp, f"witness{w}")
+        os.makedirs(d)
+        force = {"size": size, "chunk": (2, 2, 2), "sharding": sharding}
+        src_dir, info, src_acc, src_kind, src_scales = make_source_direct(R, rng, d, w, force)
+        _convert(R, rng, d, 0, src_dir, info, src_acc, src_kind, src_scales, force)
+        R.count("dest:sharded-with-unused-minishard-slots")
     n = 24 if R.tier == "quick" else 500
     for i in range(n):
         d = os.path.join(R.tmp, f"c{i}")
@@ -202,6 +216,7 @@ def run(R):
             src_dir, info, src_acc, src_kind, src_scales = make_source_direct(R, rng, d, i)
             for j in range(2):
                 _convert(R, rng, d, j, src_dir, info, src_acc, src_kind, src_scales)
+            _damaged_source(R, rng, d, src_dir, info, src_acc, src_kind)
             continue
         src = make_source(R, rng, d, i)
         if src is None:
@@ -217,14 +232,49 @@ def run(R):
             continue
         for j in range(2):
             _convert(R, rng, d, j, src_dir, info, src_acc, src_kind, src_scales)
+        if i % 2 == 0:
+            _damaged_source(R, rng, d, src_dir, info, src_acc, src_kind)
 
 
-def _convert(R, rng, d, j, src_dir, info, src_acc, src_kind, src_scales):
+def _damaged_source(R, rng, d, src_dir, info, src_acc, src_kind):
+    """A copy of the source with one chunk file deleted or cut short: the conversion cannot produce a
+    destination equal to the source, so it has to fail instead of exiting 0."""
+    if src_kind == "sharded":
+        return
+    bad = os.path.join(d, "src-damaged")
+    shutil.copytree(src_dir, bad)
+    files = []
+    for s in info["scales"]:
+        for root, _d, fs in os.walk(os.path.join(bad, s["key"])):
+            files += [os.path.join(root, f) for f in fs]
+    if not files:
+        return
+    victim = rng.choice(sorted(files))
+    how = rng.choice(["delete", "truncate"])
+    if how == "delete" or os.path.getsize(victim) < 2:
+        os.unlink(victim)
+    else:
+        with open(victim, "r+b") as fh:
+            fh.truncate(os.path.getsize(victim) // 2)
+    dst = os.path.join(d, "dst-damaged")
+    opts, _acc = storage_opts(src_kind)
+    rc, so, se = pipeline.run_script("convert_chunks", [bad, dst, "--copy-info"] + opts, inprocess=True)
+    case = {"source": {"kind": src_kind, "damage": how, "file": os.path.relpath(victim, bad)}, "dest": "copy-info"}
+    R.case(case, nontrivial=True)
+    R.count(f"damaged-source:{how}:" + ("error" if rc != 0 else "rc0"))
+    if rc == 0:
+        R.violation("convert-chunks exited 0 although a chunk of the source is missing or truncated (the "
+                    "destination cannot equal the source)", case, {})
+
+
+def _convert(R, rng, d, j, src_dir, info, src_acc, src_kind, src_scales, force=None):
     dst = os.path.join(d, f"dst{j}")
     # destination kinds in rotation (every kind occurs in every run), not at random
     kinds = ["sharded-gz", "deep-gz", "flat", "sharded", "flat-gz", "deep"]
     _convert.counter = getattr(_convert, "counter", 0) + 1
     dst_kind = kinds[_convert.counter % len(kinds)]
+    if force:
+        dst_kind = "sharded"
     copy_info = rng.random() < 0.3 and not dst_kind.startswith("sharded")
     R.count(f"dest-kind:{dst_kind}")
     src_dt = info["data_type"]
@@ -247,9 +297,12 @@ def _convert(R, rng, d, j, src_dir, info, src_acc, src_kind, src_scales):
                     dst_kind = "deep-gz"
                 else:
                     enc = "gzip" if dst_kind.endswith("gz") else "raw"
-                    s["sharding"] = {"@type": "neuroglancer_uint64_sharded_v1", "minishard_bits": rng.choice([0, 1, 2]),
+                    s["sharding"] = {"@type": "neuroglancer_uint64_sharded_v1", "minishard_bits": rng.choice([0, 1, 2, 3]),
                                      "shard_bits": rng.choice([0, 1, 2]), "preshift_bits": rng.choice([0, 1]),
                                      "hash": "identity", "minishard_index_encoding": enc, "data_encoding": enc}
+                    if force:
+                        m_, s_, p_ = force["sharding"]
+                        s["sharding"].update(minishard_bits=m_, shard_bits=s_, preshift_bits=p_)
         if not dst_kind.startswith("sharded"):
             for s in dinfo["scales"]:
                 s.pop("sharding", None)
